@@ -561,7 +561,16 @@ class Tdf:
         # make sure the new block can be added before the old one is removed:
         # it and its comment must be encodable, and once the old entry is gone
         # all unused slots must be at the end of the table
-        BTSString.write(256, comment)
+        TdfEntry(
+            type=newBlock.type,
+            format=newBlock.format.value,
+            offset=old_entry.offset,
+            size=newBlock.nBytes,
+            creation_date=newBlock.creation_date,
+            last_modification_date=newBlock.last_modification_date,
+            last_access_date=datetime.now(),
+            comment=comment,
+        )._write(BytesIO())
         newBlock._write(BytesIO())
         remaining = [i.type for i in self.entries if i is not old_entry]
         remaining.append(BlockType.unusedSlot)
